@@ -90,6 +90,9 @@ func solveObligation(o *Obligation, dir string, timeoutMs int, agree bool) {
 		return
 	}
 	definitive := func(r string) bool { return r == "sat" || r == "unsat" }
+	if o.Expect == "sat" && timeoutMs > 3000 {
+		timeoutMs = 3000 // vacuity / cover checks: a model is either found quickly or the check is inconclusive
+	}
 	t0 := time.Now()
 	ctx, cancel := context.WithCancel(context.Background())
 	defer cancel()
